@@ -169,7 +169,7 @@ def monitor_pilot(rp, cur, seq, state, cbs, mcbs, errs):
 
 
 # ------------------------------------------------------------------------------
-EVENTS = ['lifetime', 'cancel_named', 'cancel_other', 'terminate']
+EVENTS = ['lifetime', 'cancel_named', 'cancel_other', 'cancel_empty', 'terminate']
 
 
 def make_agent(rp, scratch):
@@ -237,6 +237,9 @@ def run_agent(rp, events, finalize, scratch, block):
             elif e == 'cancel_other':
                 a._control_cb('control_pubsub', {'cmd': 'cancel_pilots',
                               'arg': {'uids': ['pilot.0007']}})
+            elif e == 'cancel_empty':
+                # what PilotManager.cancel_pilots() of a manager without pilots sends to every agent of the session
+                a._control_cb('control_pubsub', {'cmd': 'cancel_pilots', 'arg': {'uids': []}})
             elif e == 'terminate':
                 a._control_cb('control_pubsub', {'cmd': 'terminate', 'arg': None})
         cause = a._final_cause
